@@ -1,13 +1,14 @@
-\* representative quick configuration (checks/C06.py generates one cfg per location x expire x jar from lib/sesslib.py)
-SPECIFICATION Spec
+SPECIFICATION ISpec
 CONSTANTS
   Browsers = {0}
   Keys = {"a"}
   CLoc = "both"
   CHow0 = 1
   CAge0 = 100
-  CPol = FALSE
-  Vals = {1}
+  CPol = TRUE
+  Vals = {1,2}
+  BigVals = {2}
+  Faithful = FALSE
   Ages = {50}
   Hows = {0,2}
   OpKinds = {"set","erase","clear","expose","hide","age","how","srv","reset"}
@@ -16,7 +17,6 @@ CONSTANTS
   JunkIds = {901}
   MaxReq = 2
   MaxOps = 2
-  MaxTamper = 1
-VIEW View
-INVARIANTS Carry NoForeign Dead SidForm Exposed JarLeft
-PROPERTIES FreshSid Unusable DeadlineFixed DeadlineRenew
+  MaxTamper = 0
+VIEW IView
+INVARIANTS MechSaveOK MechPlacement Carry NoForeign Dead SidForm Exposed JarLeft
